@@ -280,33 +280,42 @@ var progress atomic.Uint64
 func execRun(t *testing.T, sc *Scenario, x *X) (out runOutcome) {
 	out.X = x
 	progress.Add(1)
-	defer func() {
-		if r := recover(); r != nil {
-			s := fmt.Sprint(r)
-			if strings.Contains(s, "blocked goroutines remain") || strings.Contains(s, "deadlock: main bubble goroutine has exited") {
-				out.Abandoned++
-				return
-			}
-			buf := make([]byte, 16<<10)
-			n := runtime.Stack(buf, false)
-			out.HarnessErr = s + "\n" + string(buf[:n])
-		}
-	}()
-	synctest.Test(t, func(t *testing.T) {
-		simrt.ResetRun()
-		x.simStart = time.Now()
+	// The bubble is started from a helper goroutine: when the race detector has reported
+	// something during the run, the testing package fails the bubble's T and
+	// synctest.Test then calls FailNow (runtime.Goexit) on its caller — which must not be
+	// the worker's main test goroutine.
+	finished := make(chan struct{})
+	go func() {
+		defer close(finished)
 		defer func() {
-			x.SimTime = time.Since(x.simStart)
-			// a panic in scenario (root) code is harness trouble, not a violation; it must
-			// be caught here because the bubble runs on its own goroutine
 			if r := recover(); r != nil {
+				s := fmt.Sprint(r)
+				if strings.Contains(s, "blocked goroutines remain") || strings.Contains(s, "deadlock: main bubble goroutine has exited") {
+					out.Abandoned++
+					return
+				}
 				buf := make([]byte, 16<<10)
 				n := runtime.Stack(buf, false)
-				out.HarnessErr = fmt.Sprint(r) + "\n" + string(buf[:n])
+				out.HarnessErr = s + "\n" + string(buf[:n])
 			}
 		}()
-		sc.Run(x)
-	})
+		synctest.Test(t, func(t *testing.T) {
+			simrt.ResetRun()
+			x.simStart = time.Now()
+			defer func() {
+				x.SimTime = time.Since(x.simStart)
+				// a panic in scenario (root) code is harness trouble, not a violation; it must
+				// be caught here because the bubble runs on its own goroutine
+				if r := recover(); r != nil {
+					buf := make([]byte, 16<<10)
+					n := runtime.Stack(buf, false)
+					out.HarnessErr = fmt.Sprint(r) + "\n" + string(buf[:n])
+				}
+			}()
+			sc.Run(x)
+		})
+	}()
+	<-finished
 	if x.PostCheck != nil {
 		pc := x.PostCheck
 		x.PostCheck = nil
@@ -337,6 +346,7 @@ type Job struct {
 	WallS      float64         `json:"wall_s"`
 	MaxSamples int             `json:"max_samples"`
 	Worker     int             `json:"worker"`
+	Repeat     int             `json:"repeat"` // replay: repeat the run up to this many times (race tier: the schedule is not seed-decided)
 }
 
 type FoundViolation struct {
@@ -682,10 +692,20 @@ func doReplay(t *testing.T, job *Job) {
 	if sc == nil {
 		t.Fatalf("unknown scenario %q", rf.Scenario)
 	}
-	x := newX(sc.Name, choice.Replay(rf.Choices))
-	x.Prop, x.Tier, x.KeepLog = rf.Property, rf.Tier, true
-	out := execRun(t, sc, x)
+	var x *X
+	var out runOutcome
+	tries := 0
+	for {
+		tries++
+		x = newX(sc.Name, choice.Replay(rf.Choices))
+		x.Prop, x.Tier, x.KeepLog = rf.Property, rf.Tier, true
+		out = execRun(t, sc, x)
+		if hasFingerprint(x, rf.Property, rf.Fingerprint) || tries >= job.Repeat {
+			break
+		}
+	}
 	res := map[string]any{
+		"tries":       tries,
 		"reproduced":  hasFingerprint(x, rf.Property, rf.Fingerprint),
 		"violations":  x.Violations,
 		"events":      x.Log,
